@@ -141,6 +141,27 @@ def check_state(st, fs):
                     dm = float(getattr(curve, acc).effective_damage_sum(lc))
                     if not (0.3 <= dm <= 1.0 and close(dm, min(max(0.3, 2.0 / A ** 0.25), 1.0), 1e-12)):
                         viol.append(('effective damage sum outside [0.3, 1] or not 2/A^(1/4) clipped', {**case, 'rule': rule}, None, dm))
+            # (i) a KEPT histogram accessor evaluated at the class mids and then switched to the right / left class limits: every evaluation as from
+            #     a fresh accessor switched before its first use; (ii) damage is proportional to the applied cycles, also far beyond damage 1
+            curve_e = getattr(base.woehler, RULES['elementary'])().to_pandas()
+            kept = histogram(coll, 'range').load_collective
+            seq = []
+            for step in ('mid', 'right', 'left', 'mid'):
+                kept = {'mid': kept.use_class_mid, 'right': kept.use_class_right, 'left': kept.use_class_left}[step]() if hasattr(kept, 'use_class_mid') else \
+                    ({'right': kept.use_class_right, 'left': kept.use_class_left}[step]() if step != 'mid' else histogram(coll, 'range').load_collective)
+                fresh_acc = histogram(coll, 'range').load_collective
+                fresh_acc = {'mid': lambda a: a, 'right': lambda a: a.use_class_right(), 'left': lambda a: a.use_class_left()}[step](fresh_acc)
+                dk, df_ = float(curve_e.fatigue.damage(kept).sum()), float(curve_e.fatigue.damage(fresh_acc).sum())
+                seq.append((step, dk, df_))
+                if not close(dk, df_, 1e-12):
+                    viol.append(('damage for a kept histogram accessor switched to the %s class limits after earlier evaluations differs from a fresh accessor' % step, {**case, 'evaluations': [x[0] for x in seq]}, df_, dk))
+                    break
+            d1 = curve_e.fatigue.damage(histogram(coll, 'range').load_collective)
+            for rep in (2.0 ** 10, 2.0 ** 40):
+                big = (histogram(coll, 'range') * rep).load_collective
+                dr = curve_e.fatigue.damage(big)
+                if not close(dr.to_numpy(), rep * d1.to_numpy(), 1e-12):
+                    viol.append(('damage is not proportional to the applied cycles (collective applied %g times)' % rep, case, (rep * d1.to_numpy()).tolist(), dr.tolist()))
             # solidity
             V = sum(n * 2.0 ** (c['k1'] * (x - out['maxocc'])) for x, n in coll) / total
             sol = histogram(coll, 'range').solidity
